@@ -82,6 +82,15 @@ def assign_ids(t, strategy, r):
             if cands and r.random() < 0.7:
                 n["id"] = cands.pop()
         return t
+    if strategy == "exotic":
+        # ids with characters an ECMAScript identifier may hold and a C identifier may not ($, letters outside ASCII), and pairs that differ
+        # only in such a character: an id is the object name, verbatim
+        cands = ["$nameEdit", "_nameEdit", "gr\u00f6\u00dfe", "gr__e", "\u540d\u524d1", "x$", "x_", "$", "_", "$$", "\u00e9", "e\u0301", "\u03a9mega", "a$b", "a_b"]
+        r.shuffle(cands)
+        for n in ns:
+            if cands and r.random() < 0.8:
+                n["id"] = cands.pop()
+        return t
     if strategy == "dup":
         if len(ns) >= 2:
             a, b = r.sample(ns, 2)
